@@ -511,8 +511,17 @@ func (db *DB) search(o Object, field, operator string, value interface{}, constr
 }
 
 func (db *DB) flush(o Object) (err error) {
+	var pending Object
+	var ok bool
 
-	if e := db.writeObject(o); e != nil {
+	// o only identifies the object to flush: what gets written is the pending
+	// write accepted by the DB, never the caller's copy (which may hold values
+	// that were not validated, or not belong to the DB at all)
+	if pending, ok = db.asyncw.get(o); !ok {
+		return
+	}
+
+	if e := db.writeObject(pending); e != nil {
 		err = e
 	}
 
